@@ -121,6 +121,14 @@ func ledOp(e *WEnv, a []string) string {
 		consensus.CoinbaseMaturity = cb
 		consensus.MinFrozenPeriod = mf
 		return "ok"
+	case a[0] == "warmup" && len(a) == 2:
+		// consensus.MASSIP0002WarmUpHeight is a PARAMETER too (restored by every reset: WEnv.reset)
+		h, err := strconv.ParseUint(a[1], 10, 64)
+		if err != nil {
+			return "bad-op"
+		}
+		consensus.MASSIP0002WarmUpHeight = h
+		return "ok"
 	case a[0] == "addrs" && len(a) == 2:
 		return e.Addrs(a[1])
 	case a[0] == "shist" && len(a) == 3:
